@@ -9,6 +9,8 @@ import ClipVerif.Model.Conv
 import ClipVerif.Proofs.AelOrder
 import ClipVerif.Model.IntersectList
 import ClipVerif.Proofs.IntersectList
+import ClipVerif.Model.AelPtr
+import ClipVerif.Proofs.AelPtr
 /-
 C01 — boolean operations return the set-theoretic region.  Proved here: the local decisions of the
 sweep (everything the engine *decides* from winding counts); the global composition of the sweep is
@@ -252,5 +254,47 @@ theorem buildIntersectList_merge_nodes (l r : List Model.Ix.E)
 theorem buildIntersectList_nodes_exact (xs : List Int) :
     (Model.Ix.build xs).2.Perm (Model.Ix.inversions xs) := by
   exact Proofs.Ix.build_nodes xs
+
+/-! ### The pointer surgery on the active-edge list implements the list operations (refinement of the
+pointer-level model `Model.AelPtr` — `prevInAEL` / `nextInAEL` / `actives` as a heap, the functions written
+assignment by assignment, tied by `models-corr aelptr` — to the lists the other models speak about).
+`WF h l`: the heap `h` represents the list `l` (head, forward and backward links, nil ends). -/
+
+theorem ael_insertFirst_refines (h : Model.AelPtr.Heap) (e : Nat) (hw : Proofs.AelPtr.WF h []) :
+    Proofs.AelPtr.WF (Model.AelPtr.insertFirst h e) [e] := by
+  exact Proofs.AelPtr.insertFirst_refines h e hw
+
+theorem ael_insertFront_refines (h : Model.AelPtr.Heap) (l : List Nat) (e : Nat) (hw : Proofs.AelPtr.WF h l)
+    (hne : l ≠ []) (hn : e ∉ l) : Proofs.AelPtr.WF (Model.AelPtr.insertFront h e) (e :: l) := by
+  exact Proofs.AelPtr.insertFront_refines h l e hw hne hn
+
+/-- `insertRightEdge(e, e2)` (also the tail of `insertLeftEdge`): `e2` ends up right after `e` -/
+theorem ael_insertRightEdge_refines (h : Model.AelPtr.Heap) (pre post : List Nat) (e e2 : Nat)
+    (hw : Proofs.AelPtr.WF h (pre ++ e :: post)) (hn : e2 ∉ pre ++ e :: post) :
+    Proofs.AelPtr.WF (Model.AelPtr.insertRightEdge h e e2) (pre ++ e :: e2 :: post) := by
+  exact Proofs.AelPtr.insertRight_refines h pre post e e2 hw hn
+
+/-- `deleteFromAEL(e)` removes exactly `e` -/
+theorem ael_delete_refines (h : Model.AelPtr.Heap) (pre post : List Nat) (e : Nat)
+    (hw : Proofs.AelPtr.WF h (pre ++ e :: post)) :
+    Proofs.AelPtr.WF (Model.AelPtr.deleteFromAEL h e) (pre ++ post) := by
+  exact Proofs.AelPtr.delete_refines h pre post e hw
+
+/-- `swapPositionsInAEL(e1, e2)` with `e1` immediately left of `e2` exchanges the two and nothing else -/
+theorem ael_swap_refines (h : Model.AelPtr.Heap) (pre post : List Nat) (e1 e2 : Nat)
+    (hw : Proofs.AelPtr.WF h (pre ++ e1 :: e2 :: post)) :
+    Proofs.AelPtr.WF (Model.AelPtr.swapPositions h e1 e2) (pre ++ e2 :: e1 :: post) := by
+  exact Proofs.AelPtr.swap_refines h pre post e1 e2 hw
+
+/-- every swap that `Model.Ix.process` (the loop of `processIntersectList`) performs is one the pointer
+code implements: the list-level and the pointer-level model of the re-ordering agree -/
+theorem ael_swapAdj_refines (h : Model.AelPtr.Heap) (l l' : List Nat) (a b : Nat) (hw : Proofs.AelPtr.WF h l)
+    (hs : Model.Ix.swapAdj l a b = some l') : Proofs.AelPtr.WF (Model.AelPtr.swapPositions h a b) l' := by
+  exact Proofs.AelPtr.swapAdj_refines h l l' a b hw hs
+
+/-- walking `nextInAEL` from `actives` reads exactly the represented list -/
+theorem ael_walk_reads_list (h : Model.AelPtr.Heap) (l : List Nat) (hw : Proofs.AelPtr.WF h l) (fuel : Nat)
+    (hf : l.length ≤ fuel) : Model.AelPtr.toList fuel h = l := by
+  exact Proofs.AelPtr.toList_of_WF h l hw fuel hf
 
 end C01
